@@ -88,6 +88,28 @@ func oracleC01(r *Rng, n int, thorough bool, seeds []string) *OracleResult {
 				return
 			}
 			what = diffPkt4(p, q)
+			if what != "" {
+				return
+			}
+			// the round trip is a function of the bytes: decoding leaves them as they
+			// were and decoding them again gives the same packet (seeded change C01-4:
+			// a decoder reassembling long options inside the caller's buffer)
+			if b2 := p.ToBytes(); !bytes.Equal(b, b2) {
+				what = "decoding rewrote the encoded bytes"
+				return
+			}
+			q2, err := dhcpv4.FromBytes(b)
+			if err != nil {
+				what = "second decode of the same bytes failed: " + err.Error()
+				return
+			}
+			if d := diffPkt4(p, q2); d != "" {
+				what = "second decode of the same bytes: " + d
+				return
+			}
+			if d := diffPkt4(p, q); d != "" {
+				what = "the first decoded packet changed when the bytes were decoded again: " + d
+			}
 		}()
 		if what != "" {
 			res.fail(Failure{Oracle: "c01", Input: line, What: "FromBytes(ToBytes(p)) != p: " + what, Class: "v4-roundtrip"})
